@@ -393,7 +393,7 @@ func (g *pgen) lit() string {
 	}
 }
 
-var classes = []string{`[a-c]`, `[^"]`, `\d`, `\s`, `\w`, `\W`, `.`, `[[:alpha:]]`, `[k-s]`, `[\x{80}-\x{FF}]`, `[^\n]`, `[Kk]`,
+var classes = []string{`[a-c]`, `[^"]`, `\d`, `\s`, `\w`, `\W`, `.`, `[[:alpha:]]`, `[k-s]`, `[\x{100}-\x{17F}]`, `[^\n]`, `[Kk]`,
 	`[sS]`, `[a-zA-Z0-9_]`, `[^a-z]`, `\S`, `\D`, `[\x00-\x{10FFFF}]`, `[\x{e9}-\x{fc}]`, `[\x{FFFD}]`, `[0-9a-f]`}
 
 func (g *pgen) atom(depth int) string {
@@ -842,7 +842,7 @@ func countNodes(re *syntax.Regexp) int {
 }
 
 // process runs one pattern with the given inputs (nil = derive them) and appends its case.
-func (rn *runner) process(pat string, inputs []string, source, note string, nInputs int) {
+func (rn *runner) process(pat string, inputs []string, source, note string, nInputs int, emit bool) {
 	data := "(?sm)" + pat
 	cj := caseJSON{Pattern: pat, PatternHex: hexs(pat), Source: source, Note: note}
 	opOff, errOff := operators.Get("rx", plugintypes.OperatorOptions{Arguments: pat, RxPreFilterEnabled: false})
@@ -858,6 +858,9 @@ func (rn *runner) process(pat string, inputs []string, source, note string, nInp
 	binary := operators.VerifC11MatchesArbitraryBytes(data)
 	var re, re0 *syntax.Regexp
 	modelled := !binary
+	if !emit {
+		rn.dist.Inc("pattern_differential_only")
+	}
 	var rTerm, r0Term string
 	nodes := 0
 	ser := &serializer{table: rn.table}
@@ -983,6 +986,12 @@ func (rn *runner) process(pat string, inputs []string, source, note string, nInp
 		if !modelled {
 			continue
 		}
+		if !emit {
+			if pf != nil && !pf(in) && off.matched {
+				rn.fail("c11-prefilter-false-negative", fmt.Sprintf("prefilterFunc(%q)(%q) = false but the engine matches", pat, in), one)
+			}
+			continue
+		}
 		pfv := true
 		if pf != nil {
 			pfv = pf(in)
@@ -1014,7 +1023,7 @@ func (rn *runner) process(pat string, inputs []string, source, note string, nInp
 			}
 		}
 		cost := int64(nodes) * int64(len(in)+1) * int64(len(in)+1)
-		sem := cost < 3_000_000 && rn.semCost < rn.semBudget()
+		sem := cost < 20_000_000 && rn.semCost < rn.semBudget()
 		if sem {
 			rn.semCost += cost
 			rn.dist.Inc("semantics_compared_with_engine")
@@ -1023,12 +1032,19 @@ func (rn *runner) process(pat string, inputs []string, source, note string, nInp
 		if off.matched {
 			offT = "(Some " + vh.HxList(off.fields) + ")"
 		}
+		onT := "None" // the same fields as with the prefilter off
+		if !sameFields(off.fields, on.fields) {
+			onT = "(Some " + vh.HxList(on.fields) + ")"
+		}
 		ios = append(ios, fmt.Sprintf("IO %s %s %s %s %s %s %s", vh.HxS(in), vh.Bool(pfv), vh.Bool(capturing), offT,
-			vh.Bool(on.matched), vh.HxList(on.fields), vh.Bool(sem)))
+			vh.Bool(on.matched), onT, vh.Bool(sem)))
 		cj.Obs = append(cj.Obs, fmt.Sprintf("pf=%v %s", pfv, obs))
 	}
 	if !modelled {
 		rn.dist.Inc("pattern_oracle_only")
+		return
+	}
+	if !emit {
 		return
 	}
 	exT := "None"
@@ -1043,7 +1059,7 @@ func (rn *runner) process(pat string, inputs []string, source, note string, nInp
 }
 
 func (rn *runner) semBudget() int64 {
-	return int64(rn.cfg.Pick(2_500_000_000, 40_000_000_000))
+	return int64(rn.cfg.Pick(10_000_000_000, 200_000_000_000))
 }
 
 func (rn *runner) runDoc(doc json.RawMessage, source string) {
@@ -1059,7 +1075,7 @@ func (rn *runner) runDoc(doc json.RawMessage, source string) {
 	for _, h := range c.Inputs {
 		inputs = append(inputs, unhex(h))
 	}
-	rn.process(pat, inputs, source, c.Note, rn.cfg.Pick(12, 40))
+	rn.process(pat, inputs, source, c.Note, rn.cfg.Pick(12, 40), true)
 }
 
 func Run(cfg vh.Config) (*vh.Result, error) {
@@ -1085,22 +1101,27 @@ func Run(cfg vh.Config) (*vh.Result, error) {
 		for _, d := range docs {
 			rn.runDoc(d, "corpus")
 		}
-		nIn := cfg.Pick(12, 40)
+		nIn := cfg.Pick(12, 24)
 		g := &pgen{r: rn.rng}
-		for i := 0; i < cfg.Pick(520, 20000); i++ {
+		for i := 0; i < cfg.Pick(420, 4000); i++ {
 			p, kind := g.pattern(cfg.Thorough())
-			rn.process(p, nil, "grammar", kind, nIn)
+			rn.process(p, nil, "grammar", kind, nIn, true)
+		}
+		// the on/off differential alone (no Coq terms) on many more patterns
+		for i := 0; i < cfg.Pick(1500, 20000); i++ {
+			p, kind := g.pattern(cfg.Thorough())
+			rn.process(p, nil, "grammar", kind, cfg.Pick(12, 40), false)
 		}
 		crs := crsPatterns()
 		rn.dist["crs_patterns_available"] = len(crs)
 		if !cfg.Thorough() {
 			rn.rng.Shuffle(len(crs), func(i, j int) { crs[i], crs[j] = crs[j], crs[i] })
-			if len(crs) > 80 {
-				crs = crs[:80]
+			if len(crs) > 60 {
+				crs = crs[:60]
 			}
 		}
 		for _, p := range crs {
-			rn.process(p, nil, "crs", "", nIn)
+			rn.process(p, nil, "crs", "", nIn, true)
 		}
 	}
 	res.InputDistribution = rn.dist
@@ -1118,7 +1139,7 @@ func Run(cfg vh.Config) (*vh.Result, error) {
 	prelude := "Definition T : list (N * lrune) := [" + strings.Join(items, "; ") + "]."
 
 	// shards balanced by term size
-	const maxBytes = 450_000
+	const maxBytes = 220_000
 	start, size, k := 0, 0, 0
 	flush := func(end int) error {
 		if end <= start {
